@@ -124,6 +124,12 @@ class Runtime:
     def is_exception_class(self, cls):
         return self.builtin_classes["BaseException"] in cls.mro()
 
+    @staticmethod
+    def is_library_obj(obj):
+        """an instance of a library / environment class the engine only MODELS (timedelta, transports, plug-in slots ...):
+        whatever the model does not list is undecided, never an interpreted AttributeError / TypeError"""
+        return isinstance(obj, Obj) and any(getattr(c, "kind", "") == "builtin" for c in obj.cls.mro())
+
     def make_exception(self, cls, args):
         return Obj(cls, {"args": tuple(args)})
 
@@ -441,6 +447,9 @@ class Runtime:
         # a local that is assigned somewhere in the function but not yet bound
         if frame.func is not None and _assigned_in(frame.func.info.node, name):
             interp.raise_py("UnboundLocalError", name)
+        import builtins as _py_builtins
+        if hasattr(_py_builtins, name):
+            raise Undecided("the built-in `%s` is not modelled" % name)
         interp.raise_py("NameError", name)
 
     # ------------------------------------------------------------------ attributes
@@ -473,8 +482,8 @@ class Runtime:
                 return v
             if self.is_exception_class(obj.cls) and name == "args":
                 return obj.fields.get("args", ())
-            if obj.cls.kind == "builtin" and obj.cls.info is None and "(" in obj.cls.name:
-                # an environment-model / contract-slot object: what it does not model is undecided, not an AttributeError
+            if self.is_library_obj(obj):
+                # a library / environment-model / contract-slot object: what it does not model is undecided, not an AttributeError
                 raise Undecided("the model object %s has no attribute %r" % (obj.cls.name, name))
             interp.raise_py("AttributeError", "%r object has no attribute %r" % (obj.cls.name, name))
         if isinstance(obj, _Super):
@@ -708,6 +717,8 @@ class Runtime:
             m = self.lookup_method(c.cls, "__getitem__")
             if m is not None:
                 return interp.call(self.bind(m, c), [idx], {})
+            if self.is_library_obj(c):
+                raise Undecided("subscript of the model object %s" % c.cls.name)
             interp.raise_py("TypeError", "%r object is not subscriptable" % c.cls.name)
         if isinstance(c, (Opaque, PyClass)):
             return c       # typing subscripts: Dict[str, Any], Type[...]
@@ -742,6 +753,8 @@ class Runtime:
                 return interp.iterate(interp.call(self.bind(m, v), [], {}))
             if self.lookup_method(v.cls, "__getitem__") is not None:
                 interp.unsupported("iteration through __getitem__")
+            if self.is_library_obj(v):
+                raise Undecided("iteration over the model object %s" % v.cls.name)
             interp.raise_py("TypeError", "%r object is not iterable" % v.cls.name)
         if v is None or isinstance(v, (int, SInt, SBool, bool)):
             interp.raise_py("TypeError", "object is not iterable")
